@@ -300,6 +300,16 @@ ENUM_VARIANTS = {
     "ControlFlow": ["Continue", "Break"],
     "Ordering": ["Less", "Equal", "Greater"],
 }
+FOREIGN_ENUMS = {
+    "crossbeam_channel::err::RecvTimeoutError": ["Timeout", "Disconnected"],
+    "crossbeam_channel::RecvTimeoutError": ["Timeout", "Disconnected"],
+    "crossbeam_channel::err::TryRecvError": ["Empty", "Disconnected"],
+    "std::ops::Bound": ["Included", "Excluded", "Unbounded"],
+    "std::collections::Bound": ["Included", "Excluded", "Unbounded"],
+    "scc::hash_map::Entry": ["Occupied", "Vacant"],
+    "std::cmp::Ordering": ["Less", "Equal", "Greater"],
+    "std::io::ErrorKind": None,
+}
 
 
 def enum_variants(prog, ty):
@@ -311,6 +321,8 @@ def enum_variants(prog, ty):
     if head.startswith("std::") or head.startswith("core::"):
         if short in ENUM_VARIANTS:
             return ENUM_VARIANTS[short]
+    if FOREIGN_ENUMS.get(head):
+        return FOREIGN_ENUMS[head]
     a = prog.adts.get(head)
     if a and a["kind"] == "Enum":
         return [v["name"] for v in a["variants"]]
